@@ -519,6 +519,32 @@ pub fn run_loop(cfg: &RunCfg, trace_on: bool, full: bool, monitor: Monitor) -> R
     cx.finish()
 }
 
+/// Arms the run's fault plan for the operation that executes next (monitor call `i == op_index`),
+/// disarms it after that operation. Returns true while the monitor looks at the faulted step.
+pub fn fault_window(cx: &mut SeqCtx, i: usize) -> bool {
+    let plan = match &cx.cfg.fault {
+        Some(p) => p.clone(),
+        None => return false,
+    };
+    let ctl = cx.built[0].ctl.clone();
+    if i == plan.op_index {
+        let mut f = ctl.fault.lock().unwrap();
+        f.armed = true;
+        f.counter = 0;
+        f.tripped = false;
+        f.fail_at = Some(plan.k);
+        f.sticky = plan.sticky;
+        f.kind = io_kind(&plan.kind);
+        f.nodes = plan.nodes;
+        drop(f);
+        ctl.fault_on.store(true, std::sync::atomic::Ordering::SeqCst);
+    } else if i == plan.op_index + 1 {
+        ctl.fault.lock().unwrap().armed = false;
+        return true;
+    }
+    false
+}
+
 /// Standard contract monitor: result class/value + snapshot == model, keyed for `prop`.
 pub fn contract_monitor(cx: &mut SeqCtx, i: usize, op: &Op, before: &World, want: &Want, got: &Res, snaps: &[Snap]) -> bool {
     let prop = cx.cfg.property.clone();
